@@ -561,10 +561,10 @@ impl Prop for C14 {
          id / consume-if(id % m == r) / also-send / send-on-event-end; events: start-up stages (0..2 per module), injected messages at distinct \
          instants, timer wake-ups of a task, a shutdown requested by the handler with a restart that replays the start-up stages (messages \
          that arrive while the module is down are dropped without any hook call), tear-down (also ending in an error: at_sim_end returns Err, or a joined task is still pending); \
-         handlers optionally forward to a sink. Oracle: the complete hook/handler log of the target \
+         handlers optionally forward to a sink, and (in modules that never shut down) emit bursts of up to 47 messages with delays 2,0,1,2,0,1,.. ms. Oracle: the complete hook/handler log of the target \
          modules must equal the log produced by an independent interpretation of the stack rules (event_start 0..n-1 each once, incoming in that \
          order until consumed, handler iff not consumed and with the rewritten id, event_end n-1..0 each once, module elements after the global \
-         ones, brackets contiguous); the sink receives the messages sent inside events in program order. Non-trivial iff a stack has >= 2 elements \
+         ones, brackets contiguous); the sink receives the messages sent inside events by arrival time, in program order among equal arrival times. Non-trivial iff a stack has >= 2 elements \
          AND an element other than the last consumes a message AND a timer wake-up event occurs."
             .into()
     }
